@@ -292,9 +292,10 @@ def rc11_records(rid, stim, recs):
     out = [_rc("reset", run=rid)]
     wop = {}                    # task -> (op, f) waker operation in progress
     polling = None              # (f, k) future being polled by task 0
-    wrote = set()               # (t, f): remote t published its data for f
-    since_check = {}            # f -> remote tasks whose wake swap came after the last check_activated of f
-    toread = {}                 # f -> remote tasks whose data the next poll of f reads
+    nwakes = {}                 # (t, f) -> wakes of f invoked by remote t so far
+    cur = {}                    # t -> data part published for the wake in progress
+    since_check = {}            # f -> data parts of the remote wakes that touched f's activation flag since its last check_activated
+    toread = {}                 # f -> data parts the next poll of f reads
     for r in recs:
         ev, t = r["ev"], r.get("task", 0)
         if t > 3 or r.get("f", 0) > 4:
@@ -310,11 +311,18 @@ def rc11_records(rid, stim, recs):
             wop[t] = (r["op"], r["f"])
             if t != 0:
                 out.append(_rc("atomic", t, 0, PM_LOC + t, "load", "acq", obs=1))      # took the waker out of its mailbox
-                if r["op"] in ("wake", "wake_by_ref") and (t, r["f"]) not in wrote:
-                    wrote.add((t, r["f"]))
-                    out.append(_rc("cell", t, r["f"], part="data%d" % t, acc="w"))   # publish, then wake
+                cur.pop(t, None)
+                if r["op"] in ("wake", "wake_by_ref"):
+                    # publish, then wake: every wake announces something new (a cell of its own: the reader of an earlier
+                    # publication and the writer of the next one are not ordered, and need not be)
+                    k = nwakes.get((t, r["f"]), 0) + 1
+                    nwakes[(t, r["f"])] = k
+                    if k <= 3:
+                        cur[t] = "data%d_%d" % (t, k)
+                        out.append(_rc("cell", t, r["f"], part=cur[t], acc="w"))
         elif ev == "wres":
             wop.pop(t, None)
+            cur.pop(t, None)
             if t == 0 and r["op"] == "clone" and polling:
                 beh = (stim.get("fut", {}).get(str(polling[0])) or [])
                 b = beh[polling[1] - 1] if polling[1] - 1 < len(beh) else "silent"
@@ -322,8 +330,8 @@ def rc11_records(rid, stim, recs):
                     out.append(_rc("atomic", 0, 0, PM_LOC + int(b[4:]), "store", "rel", wr=1))   # the clone is handed over
         elif ev == "fpoll":
             polling = (r["f"], r["k"])
-            for u in sorted(toread.pop(r["f"], set())):
-                out.append(_rc("cell", 0, r["f"], part="data%d" % u, acc="r"))
+            for part in sorted(toread.pop(r["f"], set())):
+                out.append(_rc("cell", 0, r["f"], part=part, acc="r"))
         elif ev == "fres":
             polling = None
         elif ev == "step":
@@ -345,13 +353,16 @@ def rc11_records(rid, stim, recs):
                     return None
                 out.append(_rc("atomic", t, f, loc, op, r["ord"], r["ford"] if r["ford"] != "none" else "rlx",
                                obs=r["obs"], wr=max(r["wr"], 0)))
-                if fld == "act" and k == "swap":
-                    if r["wr"] == 1 and t != 0:
-                        since_check.setdefault(f, set()).add(t)
-                    elif r["wr"] == 0:
+                if fld == "act":
+                    # ANY access of a remote wake to the activation flag counts: a wake that only looks at the flag, finds it
+                    # set and returns relies on that activation to get the future polled - and that poll must see what the
+                    # waker published before waking
+                    if t != 0 and t in cur and wop.get(t, ("", 0))[0] in ("wake", "wake_by_ref") and wop[t][1] == f:
+                        since_check.setdefault(f, set()).add(cur[t])
+                    elif t == 0 and k == "swap" and r["wr"] == 0:
                         seen = since_check.pop(f, set())
                         if r["obs"] == 1:
-                            toread[f] = {u for u in seen if (u, f) in wrote}
+                            toread[f] = seen
         elif ev == "end":
             out.append(_rc("end", outcome=r["outcome"]))
     return out
